@@ -1,4 +1,5 @@
 import Hgxv.Proofs.C13
+import Hgxv.Proofs.C13Relabel
 /-! # C13 — configuration models preserve every node's degree and every hyperedge size
 
 Theorems about the model `Hgxv/Model/C13.lean` of `generation/configuration_model.py`
@@ -278,3 +279,49 @@ example : directedCM [([0], [2]), ([1], [2]), ([1], [3])]
 example : outDeg [([0], [3]), ([1], [2])] 1 < outDeg [([0], [2]), ([1], [2]), ([1], [3])] 1 := by decide
 -- `random.choice` of an empty side raises
 example : directedCM [([0], [1]), ([], [1])] [0, 1, 0] = .error .raise := rfl
+
+/-! ## the node labels enter only through their order
+
+The correspondence check hands the model the RANK of every label in sorted order (the labels of the real runs
+are ints of any magnitude, floats, strings, tuples; weights and metadata of the input are not arguments of the
+model at all: it is a function of the hyperedge listing the object has when the call is made).  The two theorems say
+that this abstraction loses nothing: for EVERY strictly increasing relabelling `f` and every draw list the run
+on the relabelled input has the same outcome kind, and a returned hypergraph is the relabelled one.  Hypothesis
+`hf` is exactly "order isomorphism onto its image" (what `sorted`, `==` and `in` of the Python code can see). -/
+
+theorem C13_relabel (f : Nat → Nat) (hf : ∀ a b, a < b → f a < f b) (label : Label) (detailed : Bool)
+    (size : Option Nat) (n : Nat) (es : List Edge) (ds : List Draw) :
+    (∀ out, configurationModel label detailed size n es ds = .ok out →
+        configurationModel label detailed size n (es.map (·.map f)) ds = .ok (out.map (·.map f))) ∧
+    (∀ e, configurationModel label detailed size n es ds = .error e →
+        configurationModel label detailed size n (es.map (·.map f)) ds = .error e) := by
+  have h := configurationModel_map (f := f) hf label detailed size n es ds
+  constructor
+  · intro out ho; rw [ho] at h; exact h
+  · intro e he; rw [he] at h; exact h
+
+theorem C13_directed_relabel (f : Nat → Nat) (hf : ∀ a b, a < b → f a < f b) (es : List DEdge) (ds : List Nat) :
+    (∀ out, directedCM es ds = .ok out →
+        directedCM (es.map fun e => (e.1.map f, e.2.map f)) ds = .ok (out.map fun e => (e.1.map f, e.2.map f))) ∧
+    (∀ e, directedCM es ds = .error e →
+        directedCM (es.map fun e => (e.1.map f, e.2.map f)) ds = .error e) := by
+  have h := directedCM_map (f := f) hf es ds
+  constructor
+  · intro out ho; rw [ho] at h; exact h
+  · intro e he; rw [he] at h; exact h
+
+-- non-vacuity: `v ↦ 10 v + 3` is strictly increasing; the run of the `chain` example on ranks and on the stretched labels
+example : ∀ a b : Nat, a < b → 10 * a + 3 < 10 * b + 3 := by intro a b h; omega
+example : configurationModel .edge true none 2 [[0, 1], [2, 3], [0, 2]]
+    [.idx 0 1, .coin true, .coin false, .coin false, .idx 2 0, .coin true] = .ok [[0, 3], [1, 2], [0, 2]] := rfl
+example : configurationModel .edge true none 2 [[3, 13], [23, 33], [3, 23]]
+    [.idx 0 1, .coin true, .coin false, .coin false, .idx 2 0, .coin true] = .ok [[3, 33], [13, 23], [3, 23]] := rfl
+-- the hypothesis is needed: `0 ↦ 5` (not increasing) changes the order in which the nodes are dealt out; the run on
+-- `[[0,1],[2,3]]` returns `[[0,3],[1,2]]`, whose image is `{5,3},{1,2}`, the run on the relabelled listing does not
+example : configurationModel .edge true none 1 [[0, 1], [2, 3]] [.idx 0 1, .coin true, .coin false, .coin false]
+    = .ok [[0, 3], [1, 2]] := rfl
+example : configurationModel .edge true none 1 [[1, 5], [2, 3]] [.idx 0 1, .coin true, .coin false, .coin false]
+    = .ok [[1, 3], [2, 5]] := rfl
+example : directedCM [([3, 13], [23]), ([23], [33, 43])]
+    ([0, 1, 1, 0] ++ List.replicate 38 0 ++ [1, 0, 0, 0] ++ List.replicate 38 1)
+    = .ok [([3, 23], [33]), ([13], [23, 43])] := rfl
